@@ -11,6 +11,10 @@ Workload dimensions beyond the step kinds: option VALUES from a hostile alphabet
 string / free array options, top-level and per-subproject, which therefore pass through every reader of the recorded
 command line (configure / reconfigure rewrite it, --wipe and a late subproject re-derive from it); option files that end
 up with ZERO option() calls while they keep existing, and get options again (stratified first edits + directed scripts);
+BUILTIN options whose handling is special at the first configuration (prefix, the directory options, buildtype,
+default_library ...; reference table L.GLOBALS) given - in every spelling: -Dname=value, --name=value, --name value, --flag - to
+the command that CREATES the configuration and then to nobody, to later commands, or not at all, and observed (option store,
+get_option(), recorded command line) after every later step, --wipe above all;
 failures injected at three stages (error() in the build file, backend, postconf script at the very end) after any number of
 successful saves.  Coverage cells (`cell:*`) say which of these a run compared; the deciding ones are required.
 """
@@ -76,7 +80,7 @@ def render_project(m: L.Model) -> T.Dict[str, str]:
     top, sub = m.files[''], m.files['sub']
     bi = list(L.BUILTINS)
     t = ["project('p', meson_version: '>=1.1'%s)" % _do(m.dopts[''])]
-    for n in list(top) + bi:
+    for n in list(top) + bi + list(L.GLOBALS):
         t.append(f"message('OPT {n}=@0@'.format(get_option('{n}')))")
     t.append("subproject('sub')")
     if 'late' in m.files:
@@ -448,8 +452,35 @@ class Gen:
         return {'edit': 'add', 'sub': sub, 'name': name, 'kind': 'string'}
 
 
-def flags(assign: T.Mapping[str, str], unset: T.Sequence[str] = ()) -> T.List[str]:
-    return [f'-D{k}={v}' for k, v in assign.items()] + [f'-U{k}' for k in unset]
+def flags(assign: T.Mapping[str, str], unset: T.Sequence[str] = (), spell: T.Optional[T.Mapping[str, str]] = None) -> T.List[str]:
+    """The command-line words for the assignments; spell: builtin option -> 'long=' | 'long ' | 'flag' (default -Dname=value)."""
+    out: T.List[str] = []
+    for k, v in assign.items():
+        sp = (spell or {}).get(k, 'D')
+        if sp == 'long=':
+            out.append(f'{L.long_spelling(k)}={v}')
+        elif sp == 'long ':
+            out += [L.long_spelling(k), v]
+        elif sp == 'flag':
+            assert v == 'true'
+            out.append(L.long_spelling(k))
+        else:
+            out.append(f'-D{k}={v}')
+    return out + [f'-U{k}' for k in unset]
+
+
+def choose_spelling(rx: random.Random, m: L.Model, assign: T.Mapping[str, str]) -> T.Dict[str, str]:
+    """Dedicated spellings for the builtin options of this command (top-level keys only, valid values only: the argument
+    parser itself rejects an unknown choice, which is not the failure path these histories are about)."""
+    out: T.Dict[str, str] = {}
+    for k, v in assign.items():
+        if k in L.ALL_BUILTINS:
+            spec = m._spec_for(k, m.files)
+            if spec is not None and spec.valid(v) and not v.startswith('-') and not (spec.kind == 'integer' and not v.lstrip('-').isdigit()):
+                sp = G.spelling(rx, spec.kind, v)
+                if sp != 'D':
+                    out[k] = sp
+    return out
 
 
 _MSG = re.compile(r'^(?:\w+\| )?Message: OPT ([\w:]+)=(.*)$', re.M)
@@ -463,8 +494,8 @@ def msg_form(spec_kind: str, v: str) -> str:
 
 def kind_of(m: L.Model, k: str) -> str:
     sub, _, name = k.rpartition(':')
-    if name in L.BUILTINS:
-        return L.BUILTINS[name]['kind']
+    if name in L.BUILTINS or (not sub and name in L.GLOBALS):
+        return L.ALL_BUILTINS[name]['kind']
     sp = m.st.applied[sub].get(name)
     return sp.kind if sp else '?'
 
@@ -473,6 +504,9 @@ def key_class(m: L.Model, k: str) -> str:
     sub, _, name = k.rpartition(':')
     if name in L.BUILTINS:
         return 'builtin-augment' if sub else 'builtin'
+    if not sub and name in L.GLOBALS:
+        return 'builtin-prefix' if name == 'prefix' else 'builtin-prefix-derived-default' if name in L.PREFIX_DEPENDENT else \
+            'builtin-directory' if name.endswith('dir') else 'builtin-core'
     sp = m.st.applied[sub].get(name)
     if sub and sp is not None and sp.yielding:
         return 'sub-yielding'
@@ -526,6 +560,12 @@ def classify_record_difference(step: T.Mapping[str, T.Any], expect_ok: bool, got
             # exactly the value without the blanks it begins / ends with
             return 'recorded-command-line/outer-blanks-of-value-lost'
     a = step.get('assign') or {}
+    missing = sorted(k for k in exp if k not in got)
+    if expect_ok and missing and all(k in a for k in missing) and all(got.get(k) == v for k, v in exp.items() if k not in missing) \
+            and set(got) <= set(exp):
+        # everything is recorded except options this very command was given
+        cls = sorted({('prefix' if k == 'prefix' else 'builtin' if k.rpartition(':')[2] in L.ALL_BUILTINS else 'project-option') for k in missing})
+        return f'{step.get("step")}/recorded-command-line-lacks-option-given-to-this-command/' + '+'.join(cls)
     if step.get('step') == 'reconfigure' and not expect_ok and step.get('failure_kind') == 'FAIL3' and a \
             and dict(got) == {**exp, **a}:
         # the failed command's own -D options are in the file, everything else is as expected
@@ -604,6 +644,26 @@ DIRECTED_W7: T.List[T.Tuple[T.List[T.Dict[str, T.Any]], T.Dict[str, T.Any]]] = [
       {'kind': 'reconfigure', 'assign': {}, 'inject': 'FAIL2'}, {'kind': 'reconfigure'}], {}),
 ]
 
+# wave 8: builtin options given to the command that creates the configuration - in their dedicated spellings - and never again
+_W8_SPELL = {'prefix': 'long=', 'libdir': 'long ', 'buildtype': 'long=', 'default_library': 'long ', 'werror': 'flag', 'warning_level': 'long=',
+             'unity_size': 'long=', 'strip': 'flag'}
+DIRECTED_W8: T.List[T.Tuple[T.List[T.Dict[str, T.Any]], T.Dict[str, T.Any]]] = [
+    ([{'kind': 'setup', 'assign': {'prefix': '/usr', 'libdir': 'lib64', 'buildtype': 'release', 'default_library': 'static', 'werror': 'true',
+                                   'warning_level': '3', 'unity_size': '6', 'strip': 'true', 's': 'given'}, 'spell': _W8_SPELL},
+      {'kind': 'configure', 'assign': {'b': 'true'}}, {'kind': 'reconfigure', 'assign': {'i': '9'}}, {'kind': 'wipe'}, {'kind': 'wipe'},
+      {'kind': 'reconfigure'}], {}),
+    ([{'kind': 'setup', 'assign': {'prefix': '/tmp/st age/x #1;y=%(z)s', 'mandir': 'share/man 2', 'sysconfdir': 'cfg', 'unity': 'subprojects'}},
+      {'kind': 'wipe'}, {'kind': 'configure', 'assign': {'prefix': '/usr', 'bindir': 'bin2'}, 'spell': {'prefix': 'long ', 'bindir': 'long='}},
+      {'kind': 'reconfigure'}, {'kind': 'wipe'}, {'kind': 'reconfigure', 'assign': {'prefix': '/usr/local'}}, {'kind': 'wipe'}], {}),
+    ([{'kind': 'setup', 'assign': {'prefix': '/usr/local', 'datadir': 'dat', 'stdsplit': 'false'}, 'spell': {'prefix': 'long ', 'datadir': 'long='}},
+      {'kind': 'reconfigure', 'assign': {'c': 'b'}, 'inject': 'FAIL2'}, {'kind': 'configure', 'assign': {'sub:werror': 'false'}},
+      {'kind': 'reconfigure', 'assign': {}, 'inject': 'FAIL3'}, {'kind': 'wipe', 'assign': {'includedir': 'inc'}, 'spell': {'includedir': 'long='}},
+      {'kind': 'wipe'}], {'late': False}),
+    ([{'kind': 'setup', 'assign': {'prefix': '/opt/only-here', 'late:lv': 'x'}, 'spell': {'prefix': 'long='}},
+      {'kind': 'reconfigure', 'assign': {'use_late': 'true'}}, {'kind': 'wipe'}, {'kind': 'configure', 'assign': {'buildtype': 'minsize'},
+                                                                                 'spell': {'buildtype': 'long='}}, {'kind': 'wipe'}], {'late': True}),
+]
+
 # directed probes of the known findings of this wave (each is re-observed on every run; see known_findings.d/C08.json)
 KNOWN_PROBES: T.List[T.Tuple[T.List[T.Dict[str, T.Any]], T.Dict[str, T.Any]]] = [
     ([{'kind': 'setup', 'assign': {'s': ' lead', 'sub:t': 'trail '}}, {'kind': 'wipe'}, {'kind': 'reconfigure'}], {}),
@@ -621,6 +681,18 @@ def run_history(job: T.Tuple[T.Any, ...]) -> dict:
     rng = random.Random(seed)
     hr = random.Random((seed * 2654435761) ^ 0xC0813)
     gen = Gen(rng, nsteps, hr, 0.0 if replay_steps is not None else 0.5)
+    # own stream for the builtin options of a command and their spelling (the other streams stay what they were)
+    rx = random.Random((seed * 40503) ^ 0x6B08)
+    bcount = [0]
+    # builtin options the user gave to the command that created the configuration and has not given again since
+    first_only: T.Set[str] = set()
+
+    def builtin_extra(assign: T.Dict[str, str], first: bool) -> T.Dict[str, str]:
+        """Adds builtin options to the command's assignments (in place) and returns the spelling of every builtin in it."""
+        bcount[0] += 5
+        for k, v in G.builtin_assignment(rx, L.GLOBALS, first, bcount[0]).items():
+            assign.setdefault(k, v)
+        return choose_spelling(rx, m, assign)
     top, sub = initial_files()
     # two histories out of three have default_options: in both project() calls (own random stream: the histories of earlier
     # versions of this check stay what they were)
@@ -718,29 +790,31 @@ def run_history(job: T.Tuple[T.Any, ...]) -> dict:
             fa = {k: (G.hostile_string(hr) if v == '@H' else G.hostile_array(hr) if v == '@HA' else v)
                   for k, v in forced.get('assign', {}).items()}
             inject_f = bool(forced.get('inject'))
+        spell: T.Dict[str, str] = dict(forced.get('spell', {})) if forced is not None and kind != 'edit' else {}
         if kind == 'setup' and forced is not None:
             expect_ok = m.setup(fa, inject_f)
-            argv = ['setup', b, src] + flags(fa)
+            argv = ['setup', b, src] + flags(fa, spell=spell)
             step = {'step': 'setup', 'assign': fa, 'inject_failure': inject_f}
         elif kind == 'configure' and forced is not None:
             fu = list(forced.get('unset', []))
             expect_ok = m.configure(fa, fu)
-            argv = ['configure', b] + flags(fa, fu)
+            argv = ['configure', b] + flags(fa, fu, spell)
             step = {'step': 'configure', 'assign': fa, 'unset': fu}
         elif kind == 'reconfigure' and forced is not None:
             expect_ok = m.reconfigure(fa, inject_f)
-            argv = ['setup', '--reconfigure', b, src] + flags(fa)
+            argv = ['setup', '--reconfigure', b, src] + flags(fa, spell=spell)
             step = {'step': 'reconfigure', 'assign': fa, 'inject_failure': inject_f}
         elif kind == 'wipe' and forced is not None:
             expect_ok = m.wipe(inject_f, fa)
-            argv = ['setup', '--wipe', b, src] + flags(fa)
+            argv = ['setup', '--wipe', b, src] + flags(fa, spell=spell)
             step = {'step': 'wipe', 'inject_failure': inject_f, 'restored': False, 'assign': fa}
         elif kind == 'setup':
             assign = gen.assignment(m, rng.randint(0, 4), 0.12, 0.05)
             gen.late_extra(m, 'setup', assign, r2)
             inject = rng.random() < 0.1
+            spell = builtin_extra(assign, True)
             expect_ok = m.setup(assign, inject)
-            argv = ['setup', b, src] + flags(assign)
+            argv = ['setup', b, src] + flags(assign, spell=spell)
             step = {'step': 'setup', 'assign': assign, 'inject_failure': inject}
         elif kind == 'configure':
             assign = gen.assignment(m, rng.randint(1, 3), 0.12, 0.04)
@@ -757,15 +831,17 @@ def run_history(job: T.Tuple[T.Any, ...]) -> dict:
             assign = {k: v for k, v in assign.items() if k not in unset}
             if not assign and not unset:
                 assign = {'warning_level': rng.choice(['0', '1', '2', '3'])}
+            spell = builtin_extra(assign, False)
             expect_ok = m.configure(assign, unset)
-            argv = ['configure', b] + flags(assign, unset)
+            argv = ['configure', b] + flags(assign, unset, spell)
             step = {'step': 'configure', 'assign': assign, 'unset': unset}
         elif kind == 'reconfigure':
             assign = gen.assignment(m, rng.randint(0, 3), 0.1, 0.12)
             gen.late_extra(m, 'reconfigure', assign, r2)
             inject = rng.random() < 0.15
+            spell = builtin_extra(assign, False)
             expect_ok = m.reconfigure(assign, inject)
-            argv = ['setup', '--reconfigure', b, src] + flags(assign)
+            argv = ['setup', '--reconfigure', b, src] + flags(assign, spell=spell)
             step = {'step': 'reconfigure', 'assign': assign, 'inject_failure': inject}
         else:
             if kind == 'restore-and-wipe':
@@ -785,16 +861,18 @@ def run_history(job: T.Tuple[T.Any, ...]) -> dict:
             if m.st.configured and rng.random() < 0.4:
                 # options given together with --wipe must beat the recorded command line
                 wassign = gen.assignment(m, rng.randint(1, 2), 0.0, 0.0)
-                if m.st.record and rng.random() < 0.6:
-                    k = rng.choice(sorted(m.st.record))
+                rec_old = sorted(k for k in m.st.record if k not in L.GLOBALS)      # (the choice earlier versions made)
+                if rec_old and rng.random() < 0.6:
+                    k = rng.choice(rec_old)
                     subn, _, name = k.rpartition(':')
                     spec = m._spec_for(k, m.files) if (name in L.BUILTINS or name in m.files.get(subn, {})) else None
                     if spec is not None:
                         wassign[k] = gen.value_for(spec)
             if m.st.configured:
                 gen.late_extra(m, 'wipe', wassign, r2)
+            spell = builtin_extra(wassign, False)
             expect_ok = m.wipe(inject, wassign)
-            argv = ['setup', '--wipe', b, src] + flags(wassign)
+            argv = ['setup', '--wipe', b, src] + flags(wassign, spell=spell)
             step = {'step': 'wipe', 'inject_failure': inject, 'restored': kind == 'restore-and-wipe', 'assign': wassign}
             inject = inject
         if step.get('inject_failure'):
@@ -806,6 +884,11 @@ def run_history(job: T.Tuple[T.Any, ...]) -> dict:
                     step['failure_kind'] = 'FAIL3'      # same stage class (after coredata was dumped), at the very end
             open(os.path.join(src, step['failure_kind']), 'w').close()
         record_before = dict(m_record_before)
+        if spell:
+            step['spell'] = spell
+        for k, v in step.get('assign', {}).items():
+            if k in L.ALL_BUILTINS:
+                cell(f'builtin-given:{step["step"]}:{key_class(m, k) if k in L.GLOBALS else "builtin"}:spelled-' + spell.get(k, 'D').strip().replace('=', '-eq'))
         note(step['step'] + (':expected-fail' if not expect_ok else ''))
         if m.st.late and not late_before and expect_ok:
             note('late-subproject-first-configured-by:' + step['step'] + ('+recorded-options' if any(k.startswith('late:') for k in m.st.record) else ''))
@@ -848,7 +931,7 @@ def run_history(job: T.Tuple[T.Any, ...]) -> dict:
             keys = []
             for k in exp:
                 subn, _, name = k.rpartition(':')
-                keys.append((name, (subn or ('' if name not in L.BUILTINS else None))))
+                keys.append((name, (subn or ('' if name not in L.ALL_BUILTINS else None))))
             gone = m.vanished()
             for k in gone:
                 subn, _, name = k.rpartition(':')
@@ -872,15 +955,33 @@ def run_history(job: T.Tuple[T.Any, ...]) -> dict:
                     problem(f'{step["step"]}/removed-option-still-present', key=k, got=got.get(k))
                     bad = True
                     break
+            if expect_ok:
+                if step['step'] == 'setup':
+                    first_only.clear()
+                    first_only.update(k for k in step.get('assign', {}) if k in L.GLOBALS)
+                else:
+                    first_only.difference_update(step.get('assign', {}))
             for k, e in exp.items():
                 if bad:
                     break
+                if e is None:
+                    res['not_comparable_no_documented_default'] = res.get('not_comparable_no_documented_default', 0) + 1
+                    continue
+                if k in L.GLOBALS:
+                    given = 'given-at-first-setup-only' if k in first_only else 'given-later' if k in m.st.record else 'never-given'
+                    cell(f'builtin-compared:{key_class(m, k)}:{given}:after-{step["step"]}' + ('' if expect_ok else '-failed'))
+                    if k in first_only and step['step'] == 'wipe' and expect_ok:
+                        res['first_only_after_wipe'] = res.get('first_only_after_wipe', 0) + 1
+                        if k == 'prefix':
+                            res['first_only_prefix_after_wipe'] = res.get('first_only_prefix_after_wipe', 0) + 1
+                    if k in L.PREFIX_DEPENDENT and k not in m.st.record and 'prefix' in m.st.record and step['step'] == 'wipe' and expect_ok:
+                        res['derived_after_wipe'] = res.get('derived_after_wipe', 0) + 1
                 g = L.norm(got.get(k))
                 if kind_of(m, k) == 'array' and isinstance(got.get(k), list):
                     # element lists are compared (two spellings of one array are one value)
                     g, e = list(got[k]), L.items(e)
                 res['checked_values'] += 1
-                if is_hostile(exp[k]):
+                if is_hostile(exp[k]) and k not in L.GLOBALS:
                     cell('hostile-value-compared-after:' + step['step'] + ('' if expect_ok else '-failed'))
                     if step['step'] == 'wipe' and expect_ok and k in m.st.record:
                         res['hostile_rederived'] = res.get('hostile_rederived', 0) + 1
@@ -914,6 +1015,8 @@ def run_history(job: T.Tuple[T.Any, ...]) -> dict:
             if rr.rc == 0 and step['step'] in ('setup', 'reconfigure', 'wipe'):
                 seen = dict(_MSG.findall(rr.out))
                 for k, e in exp.items():
+                    if e is None:
+                        continue
                     if k in seen and (e != e.strip() or '\n' in e or '\r' in e):
                         # a log line cannot show blanks at its end or a line break inside the value
                         res['msgs_not_comparable'] = res.get('msgs_not_comparable', 0) + 1
@@ -994,6 +1097,23 @@ LITERAL_SCRIPTS = [
       (['setup', '--reconfigure', '@B', '@S', '-Dbackend_max_links=3'], {'backend_max_links': '3'}),
       (['setup', '--reconfigure', '@B', '@S'], {'backend_max_links': '3'}),
       (['setup', '--wipe', '@B', '@S'], {'backend_max_links': '3', 's': 'from-nf'})]),
+    # builtin options in their dedicated spellings, given to the first setup only: what they imply (Builtin-options.md: buildtype
+    # release = optimization 3 / debug false; prefix /usr = sysconfdir /etc, localstatedir /var) is re-derived by every --wipe
+    ('first-setup-builtins-survive-configure-reconfigure-wipe',
+     [(['setup', '@B', '@S', '--prefix=/usr', '--libdir', 'lib64', '--buildtype=release', '--default-library', 'static', '--werror', '-Dmandir=share/man2'],
+       {'prefix': '/usr', 'libdir': 'lib64', 'buildtype': 'release', 'optimization': '3', 'debug': 'false', 'default_library': 'static',
+        'werror': 'true', 'mandir': 'share/man2', 'sysconfdir': '/etc', 'localstatedir': '/var', 'sharedstatedir': '/var/lib'}),
+      (['configure', '@B', '-Ds=x'], {'prefix': '/usr', 'libdir': 'lib64', 'buildtype': 'release', 'default_library': 'static', 'werror': 'true'}),
+      (['setup', '--reconfigure', '@B', '@S', '-Di=7'], {'prefix': '/usr', 'libdir': 'lib64', 'buildtype': 'release', 'mandir': 'share/man2'}),
+      (['setup', '--wipe', '@B', '@S'],
+       {'prefix': '/usr', 'libdir': 'lib64', 'buildtype': 'release', 'optimization': '3', 'debug': 'false', 'default_library': 'static',
+        'werror': 'true', 'mandir': 'share/man2', 'sysconfdir': '/etc', 'localstatedir': '/var', 'sharedstatedir': '/var/lib', 's': 'x', 'i': '7'}),
+      (['setup', '--wipe', '@B', '@S'], {'prefix': '/usr', 'libdir': 'lib64', 'sysconfdir': '/etc', 'default_library': 'static'})]),
+    ('first-setup-D-prefix-survives-wipe',
+     [(['setup', '@B', '@S', '-Dprefix=/opt/stage', '-Dbindir=tools'], {'prefix': '/opt/stage', 'bindir': 'tools', 'sysconfdir': 'etc', 'localstatedir': 'var'}),
+      (['setup', '--wipe', '@B', '@S'], {'prefix': '/opt/stage', 'bindir': 'tools', 'sysconfdir': 'etc', 'localstatedir': 'var'}),
+      (['setup', '--reconfigure', '@B', '@S', '-Dwerror=true'], {'prefix': '/opt/stage', 'bindir': 'tools'}),
+      (['setup', '--wipe', '@B', '@S'], {'prefix': '/opt/stage', 'bindir': 'tools', 'werror': 'true'})]),
     ('configure-then-wipe-keeps-empty-values',
      [(['setup', '@B', '@S', '-Ds=first', '-Dtags=b,c'], {'s': 'first', 'tags': 'b,c'}),
       (['configure', '@B', '-Ds=', '-Dtags='], {'s': '', 'tags': ''}),
@@ -1078,6 +1198,7 @@ def build_jobs(cseed: int, tier: str, root: str) -> T.List[T.Tuple[T.Any, ...]]:
     jobs += [(900000 + i, len(sc), root, sc) for i, sc in enumerate(directed)]
     jobs += [(2_000_000_000 + (cseed % 100000) * 100 + i, len(sc), root, sc, None, jo) for i, (sc, jo) in enumerate(DIRECTED_W7)]
     jobs += [(920000 + i, len(sc), root, sc, None, jo) for i, (sc, jo) in enumerate(KNOWN_PROBES)]
+    jobs += [(930000 + i, len(sc), root, sc, None, jo) for i, (sc, jo) in enumerate(DIRECTED_W8)]
     return jobs
 
 
@@ -1125,6 +1246,10 @@ def main() -> int:
         chk.count('monitor:hostile_values_rederived_by_wipe', res.get('hostile_rederived', 0))
         chk.count('monitor:states_compared_with_zero_option_file', res.get('zero_file_states', 0))
         chk.count('monitor:late_failed_reconfigure_after_later_saves_compared', res.get('late_failure_after_saves', 0))
+        chk.count('monitor:builtins_given_only_to_first_setup_compared_after_wipe', res.get('first_only_after_wipe', 0))
+        chk.count('monitor:prefix_given_only_to_first_setup_compared_after_wipe', res.get('first_only_prefix_after_wipe', 0))
+        chk.count('monitor:prefix_derived_directory_defaults_compared_after_wipe', res.get('derived_after_wipe', 0))
+        chk.count('builtin_without_documented_default_not_compared', res.get('not_comparable_no_documented_default', 0))
         for p in res['problems']:
             chk.violation(p['mechanism'], {k: v for k, v in p.items() if k != 'mechanism'})
     for res in results[:3]:
@@ -1136,6 +1261,9 @@ def main() -> int:
     chk.require('monitor:hostile_values_rederived_by_wipe', 5)
     chk.require('monitor:states_compared_with_zero_option_file', 4)
     chk.require('monitor:late_failed_reconfigure_after_later_saves_compared', 2)
+    chk.require('monitor:builtins_given_only_to_first_setup_compared_after_wipe', 5)
+    chk.require('monitor:prefix_given_only_to_first_setup_compared_after_wipe', 3)
+    chk.require('monitor:prefix_derived_directory_defaults_compared_after_wipe', 3)
     return chk.finish(
         rule='case = one seeded history (setup / configure -D -U / reconfigure / wipe / option-file edits / injected failures); '
              'distinct = distinct sequences of (step kind, edit kind, expected outcome); non-trivial = at least 3 steps',
